@@ -486,6 +486,7 @@ class ParserField:
         self.output_transformer = None
         self.const = unprovided
         self.discriminator_map = {}
+        self.discriminator_pending = False
         self.positional_only = positional_only
 
         # ----------
@@ -606,6 +607,15 @@ class ParserField:
                 else:
                     self.output_transformer = trans
 
+        self.setup_discriminator()
+
+    def setup_discriminator(self):
+        if self.discriminator and self.has_pending_refs(self.type):
+            # the classes of the union are named by reference and not evaluated yet:
+            # the map is built once the references are resolved (before the first parse)
+            self.discriminator_pending = True
+            return
+        self.discriminator_pending = False
         if self.discriminator:
             discriminator_map = {}
             comb = None
@@ -742,6 +752,18 @@ class ParserField:
             self.type, r = resolve_forward_type(self.type)
         if self.output_type:
             self.output_type, r = resolve_forward_type(self.output_type)
+        if self.discriminator_pending:
+            self.setup_discriminator()
+
+    @classmethod
+    def has_pending_refs(cls, t) -> bool:
+        if isinstance(t, ForwardRef):
+            return not t.__forward_evaluated__
+        if isinstance(t, LogicalType):
+            comb = t.resolve_combined_origin()
+            if comb:
+                return any(cls.has_pending_refs(arg) for arg in comb.args)
+        return False
 
     @property
     def always_provided(self):
